@@ -5,7 +5,8 @@ CLASS_CHAR = {"L": "a", "S": " ", "/": "/", "*": "*", "Q": '"', "q": "'", "B": "
 # completions: closers for an open literal/comment followed by "revealers" (a comment spanning a
 # newline exposes a wrong lexical state on the following physical line)
 SUFFIXES = ["", "*/", "*/ x", '"', "'", " x", "*/\nx", "\n*/ x", "\nx", "x*/",
-            "'' /*\nx*/", '"" /*\nx*/', "' /*\nx*/", '" /*\nx*/']
+            "'' /*\nx*/", '"" /*\nx*/', "' /*\nx*/", '" /*\nx*/',
+            "/ x */ y", "/x\n*/", "\n/ x */ y"]
 
 NODE = re.compile(r'^(-?\d+) \[label="')
 EDGE = re.compile(r'^(-?\d+) -> (-?\d+) \[label="(.*?)",color')
